@@ -652,6 +652,12 @@ def gen_args(rng, K, gen, spec):
         return [a, b]
     if gen == "inv":
         b, c = g_coprime_pair(rng, K)
+        if rng.chance(1, 2):
+            # modulus in the top half: "temp += a" can then carry out of 2^(2^K) (the `ret ||` of the reduction test)
+            c = (Bk - 1 - 2 * rng.bits(min(n - 2, rng.choice([1, 8, 64, n - 2])))) | 1
+            b = (g_int(rng, K) % c) or 1
+            while math.gcd(b, c) != 1:
+                b += 1
         return [b, c]
     if gen == "bez":
         c, d = g_coprime_pair(rng, K)
@@ -781,17 +787,17 @@ def klass_of(v, spec, K, a):
 def case_count(v, info, K, tier):
     q = tier == "quick"
     fl = info["flags"]
-    base = 10 if q else 300
+    base = 10 if q else 1200
     if K >= 10:
-        base = 4 if q else 60
+        base = 4 if q else 200
     if "vheavy" in fl:        # exp_mod with a full-size exponent: 2^K modular squarings in the model
-        base = {6: 6, 7: 4, 8: 2}.get(K, 0) if q else {6: 60, 7: 40, 8: 20, 9: 6, 10: 2, 11: 1}[K]
+        base = {6: 6, 7: 4, 8: 2}.get(K, 0) if q else {6: 60, 7: 40, 8: 20, 9: 2}.get(K, 0)
     elif "heavy" in fl:
-        base = {6: 8, 7: 8, 8: 6, 9: 4, 10: 2, 11: 2}[K] if q else {6: 200, 7: 200, 8: 100, 9: 60, 10: 20, 11: 10}[K]
+        base = {6: 8, 7: 8, 8: 6, 9: 4, 10: 2, 11: 2}[K] if q else {6: 600, 7: 600, 8: 300, 9: 120, 10: 30, 11: 12}[K]
     elif info["gen"] in ("div21", "div32"):
-        base = (48 if K <= 8 else 16 if K == 9 else 6) if q else (2000 if K <= 9 else 200)
+        base = (48 if K <= 8 else 16 if K == 9 else 6) if q else (6000 if K <= 9 else 400)
     elif info["gen"] in ("div", "modn", "sdiv", "sdivr", "divw", "divw63"):
-        base = (16 if K <= 9 else 6) if q else (600 if K <= 9 else 100)
+        base = (16 if K <= 9 else 6) if q else (2500 if K <= 9 else 300)
     return base
 
 
